@@ -146,7 +146,7 @@ def load_unit(name):
     return importlib.import_module(f"units.{name}")
 
 
-def run_unit(name, overlay=None, probe=False, rlimit=None, seed=None, tag="", timeout=600, multiple_errors=20):
+def run_unit(name, overlay=None, probe=False, rlimit=None, seed=None, tag="", timeout=1800, multiple_errors=20):
     """Generate the unit from REPO (or overlay) and run Verus.  Never raises for verification failures."""
     ur = UnitResult()
     ur.name, ur.status, ur.reason = name, "ok", ""
